@@ -111,7 +111,7 @@ def cases(tier, seed, i, n):
                     if (len(an) + len(bn)) % 3 == 0 or tier == 'thorough':
                         yield dict(z=z, a=an, b=bn, via='persist')
         rnd = random.Random(seed * 523 + 17)
-        for _ in range(200 if tier == 'quick' else 6000):
+        for _ in range(600 if tier == 'quick' else 200000):
             z = rnd.random() < 0.5
             A = sorted(a_histories(z))
             B = sorted(b_histories(z))
